@@ -349,6 +349,14 @@ def build_go(workdir, cli=("bkl",), harness=True, race=False):
     os.makedirs(bindir, exist_ok=True)
     if harness:
         h = os.path.join(VERIF, "harness")
+        if REPO != "/repo":
+            # experiments against another tree (VERIF_REPO): a private copy of the harness whose go.mod points there
+            h2 = os.path.join(workdir, "harness_src")
+            shutil.rmtree(h2, ignore_errors=True)
+            shutil.copytree(h, h2)
+            gm = open(os.path.join(h2, "go.mod")).read().replace("=> /repo", "=> " + REPO)
+            open(os.path.join(h2, "go.mod"), "w").write(gm)
+            h = h2
         shutil.copy(os.path.join(REPO, "go.sum"), os.path.join(h, "go.sum"))
         rc, out = sh(["go", "build", "-o", os.path.join(bindir, "verifh"), "."], cwd=h, env=GOENV, timeout=900)
         if rc:
